@@ -1,6 +1,7 @@
 package scen
 
 import (
+	"context"
 	"fmt"
 	"sync"
 	"time"
@@ -50,7 +51,8 @@ func c14Setup(r *Run) simrt.Config {
 	c.Daemons = []string{"middleware.NewMapExpiringKeyRepository"}
 	if r.T.Chance(1, 2) {
 		c.Fine = true
-		c.FinePkg = "middleware.(*mapExpiringKeyRepository)"
+		// statement-level yields in the whole middleware package: repository, Deduplicator and the hasher closures
+		c.FinePkg = "router/middleware."
 	}
 	c.StepCap = 40000
 	if r.T.Chance(1, 3) {
@@ -132,11 +134,18 @@ func c14Body(r *Run) {
 	}
 	type job struct {
 		g, wave, keyIdx, variant int
+		cancelledCtx             bool
 	}
 	present := func(j job) {
 		payload := c14Payload(t, j.keyIdx, j.variant)
 		m := message.NewMessage(fmt.Sprintf("w%d-g%d", j.wave, j.g), []byte(payload))
 		m.Metadata.Set("dedup", fmt.Sprintf("field-key-%d", j.keyIdx))
+		if j.cancelledCtx {
+			// the in-memory repository does not depend on the message context: an ended context changes nothing
+			cctx, ccancel := context.WithCancel(context.Background())
+			ccancel()
+			m.SetContext(cctx)
+		}
 		p := &c14Pres{key: fmt.Sprintf("k%d", j.keyIdx), payload: payload, wave: j.wave}
 		pres = append(pres, p)
 		ev++
@@ -165,7 +174,7 @@ func c14Body(r *Run) {
 	plan := make([][]job, waves)
 	for w := 0; w < waves; w++ {
 		for g := 0; g < nG; g++ {
-			plan[w] = append(plan[w], job{g: g, wave: w, keyIdx: t.Int(nKeys), variant: t.Int(3)})
+			plan[w] = append(plan[w], job{g: g, wave: w, keyIdx: t.Int(nKeys), variant: t.Int(3), cancelledCtx: t.Chance(1, 6)})
 		}
 	}
 	stallFree := r.Params["stalled"] == 0
